@@ -109,6 +109,7 @@ var catalogue = []namedDecl{
 	{pkgAlpha, "alpha", "Élan", false, true, true, 0, false, false, "type Élan []string"},
 	{pkgAlpha, "alpha", "Closer", false, true, false, 0, true, true, "type Closer interface{ Close2() error }"},
 	{pkgAlpha, "alpha", "RC", false, true, false, 0, true, true, "type RC interface {\n\tI\n\tCloser\n\tFlush2()\n}"},
+	{pkgAlpha, "alpha", "RG", false, true, false, 0, true, true, "type RG interface {\n\tGI[int]\n\tRGOnly()\n}"},
 }
 
 var basicNames = []string{"int", "string", "bool", "byte", "rune", "float64", "uint8", "uintptr", "complex128", "int64", "uint", "int32", "float32"}
